@@ -28,7 +28,7 @@ def run(rep, work, tier, seed):
         mc = dict(NTasks=3, N=4, MaxOps=7, MaxRec=0, MaxT=1, MTypes=["Cat"], Kinds=["s", "a"], Bug="none")
         conf = dict(NTasks=2, N=3, MaxOps=6, MaxRec=0, MaxT=1, MTypes=["Cat"], Kinds=["s", "a"], Bug="none")
     else:
-        mc = dict(NTasks=3, N=5, MaxOps=10, MaxRec=0, MaxT=1, MTypes=["Cat"], Kinds=["s", "a"], Bug="none")
+        mc = dict(NTasks=3, N=5, MaxOps=8, MaxRec=0, MaxT=1, MTypes=["Cat"], Kinds=["s", "a"], Bug="none")
         conf = dict(NTasks=3, N=4, MaxOps=7, MaxRec=0, MaxT=1, MTypes=["Cat"], Kinds=["s", "a"], Bug="none")
     rep.extra["constants"] = dict(model=mc, conformance=conf)
     leg_m(rep, work, SPEC, f"mc_{tier}",
